@@ -371,7 +371,7 @@ func VP_C15_WAL_k4_crash1() { vpC15WAL(4, 1) }
 // OnStart (catch-up, backup, repairWalFile, reload).  After `lifetimes` such cycles a reader returns
 // every synced record of every lifetime, in order.
 func vpC15RepairLifetimes(lifetimes int) {
-	vp.Opt("conccap", 64)
+	vp.Opt("goroutines", 64)
 	dir := vp.TempDir()
 	walFile := dir + "/wal"
 	var want []int32
@@ -418,10 +418,7 @@ func vpC15RepairLifetimes(lifetimes int) {
 		if err := cs.evsw.Start(); err != nil {
 			panic(err)
 		}
-		vpDbgSize("before restart", walFile)
 		err := cs.OnStart()
-		vpDbgSize("after restart", walFile)
-		println("  OnStart err:", err.Error())
 		vp.Assert(err != nil && !IsDataCorruptionError(err), "C15.repair.restart-gets-past-the-torn-tail")
 		vp.Reach("restarted")
 		if life < lifetimes {
@@ -447,26 +444,10 @@ func vpC15RepairLifetimes(lifetimes int) {
 			got = append(got, e.Round)
 		}
 	}
-	if len(got) != len(want) {
-		println("GOT", len(got), "WANT", len(want))
-		for _, g := range got {
-			println("  got", g)
-		}
-	}
 	vp.Assert(len(got) == len(want), "C15.repair.every-synced-record-of-every-lifetime-is-returned")
 	for i := range got {
 		if i < len(want) {
 			vp.Assert(got[i] == want[i], "C15.repair.records-come-back-in-order")
-		}
-	}
-}
-
-func vpDbgSize(what, walFile string) {
-	for _, f := range []string{walFile, walFile + ".CORRUPTED"} {
-		if st, err := os.Stat(f); err == nil {
-			println("DBG", what, f, st.Size())
-		} else {
-			println("DBG", what, f, "absent")
 		}
 	}
 }
